@@ -347,7 +347,7 @@ pub fn gen_rx(d: &mut Dec, p: &GenParams, depth: usize, budget: &mut usize) -> R
             )
         }
         3 => {
-            if d.chance(3) {
+            if d.chance(8) {
                 // a long run of one character or class (an algorithm iterating once per position
                 // may stop early at some bound); only leaves are repeated that often so that the
                 // automaton stays small
@@ -525,6 +525,16 @@ pub fn gen_mode(d: &mut Dec, p: &GenParams, name: &str) -> ModeSpec {
             None
         };
         pats.push(PatSpec { rx, tt, la });
+    }
+    if pats.len() >= 2 && p.named_classes && d.chance(10) {
+        // a named class and its opposite polarity as stand-alone atoms of two patterns of one
+        // scanner (anything that identifies classes by name must tell them apart)
+        let n = gen_named(d, p, false);
+        let i = d.below(pats.len());
+        let j = (i + 1 + d.below(pats.len() - 1)) % pats.len();
+        let atom = |neg: bool| Rx::Class(Class::Named(n.clone(), neg));
+        pats[i].rx = if d.bool() { atom(false) } else { Rx::Concat(vec![atom(false), pats[i].rx.clone()]) };
+        pats[j].rx = if d.bool() { atom(true) } else { Rx::Concat(vec![atom(true), pats[j].rx.clone()]) };
     }
     if pats.len() >= 2 && d.chance(12) {
         // two patterns with the same expression (different token types, perhaps a lookahead)
@@ -813,7 +823,11 @@ pub fn gen_large_mode(d: &mut Dec, p: &GenParams, name: &str) -> ModeSpec {
             _ => gen_pattern_rx(d, &small),
         };
         let tt = if d.chance(200) { i } else { 1000 + i * 3 };
-        let la = if p.lookahead_per_256 > 0 && d.chance(p.lookahead_per_256) {
+        // (a pattern with a lookahead 64 places after another pattern with a lookahead and the same
+        // expression: both accept at the same position)
+        let twin64 = p.lookahead_per_256 > 0 && i >= 64 && pats[i - 64].la.is_some() && d.chance(128);
+        let rx = if twin64 { pats[i - 64].rx.clone() } else { rx };
+        let la = if twin64 || (p.lookahead_per_256 > 0 && d.chance(p.lookahead_per_256)) {
             Some(LaSpec {
                 positive: d.bool(),
                 rx: if d.bool() {
@@ -984,6 +998,27 @@ pub fn benign_modes() -> Vec<ModeSpec> {
             transitions: vec![(4, 0)],
         },
     ]
+}
+
+/// An input of 400-1 500 characters for `benign_modes` with hundreds of short tokens and long
+/// stretches without a mode switch (windows of 128 / 256 / 1 000 tokens fill up).
+pub fn gen_medium_benign_input(d: &mut Dec) -> String {
+    let mut chunk = String::new();
+    for _ in 0..20 + d.below(40) {
+        chunk.push(*d.pick(&['a', 'b', ' ', '1', ' ', 'z', '0', ' ', '\n', 'é', ' ', 'a']));
+    }
+    let target = 400 + d.below(1_100);
+    let mut s = String::with_capacity(target * 2);
+    let mut n = 0;
+    let len = chunk.chars().count();
+    while n < target {
+        s.push_str(&chunk);
+        n += len;
+        if d.chance(12) {
+            s.push('#');
+        }
+    }
+    s
 }
 
 /// A huge input (66-75 thousand characters, beyond 16-bit offsets / counts) for `benign_modes`.
